@@ -198,6 +198,18 @@ class Driver:
             "attributes": {"step_count": self.step_count},
         }
 
+    def todict(self) -> dict[str, Any]:
+        """
+        Return the dictionary representation used by ASE's JSON encoder (and therefore
+        by the restart observer), always the one of the actual class.
+
+        Returns
+        -------
+        dict[str, Any]
+            A dictionary representation of the object, see `to_dict`.
+        """
+        return self.to_dict()
+
     @property
     def default_logger(self) -> Logger | None:
         """
